@@ -260,21 +260,21 @@ thread_local! {
     static LONG_NICK: Nickname = Nickname::new();
 }
 
-pub fn profile_op(prof: &str, op: &str, how: &str, form: &str, a: &str, b: &str) -> String {
+fn profile_op_one(prof: &str, op: &str, how: &str, form: &str, a: &str, b: &str) -> String {
     // how: "f" fresh instance, "l" long-lived instance, "s" static fast invocation
     macro_rules! go {
         ($T:ty, $LONG:ident) => {{
             if op == "compare" {
-                match how {
-                    "f" => fmt_bool(<$T>::new().compare(a, b)),
-                    "l" => $LONG.with(|p| fmt_bool(p.compare(a, b))),
-                    "s" => match form {
-                        "o" => fmt_bool(<$T as PrecisFastInvocation>::compare(
-                            a.to_string(),
-                            b.to_string(),
-                        )),
-                        _ => fmt_bool(<$T as PrecisFastInvocation>::compare(a, b)),
-                    },
+                match (how, form) {
+                    ("f", "o") => fmt_bool(<$T>::new().compare(a.to_string(), b.to_string())),
+                    ("f", _) => fmt_bool(<$T>::new().compare(a, b)),
+                    ("l", "o") => $LONG.with(|p| fmt_bool(p.compare(a.to_string(), b.to_string()))),
+                    ("l", _) => $LONG.with(|p| fmt_bool(p.compare(a, b))),
+                    ("s", "o") => fmt_bool(<$T as PrecisFastInvocation>::compare(
+                        a.to_string(),
+                        b.to_string(),
+                    )),
+                    ("s", _) => fmt_bool(<$T as PrecisFastInvocation>::compare(a, b)),
                     _ => proto("bad how"),
                 }
             } else {
@@ -296,17 +296,78 @@ pub fn profile_op(prof: &str, op: &str, how: &str, form: &str, a: &str, b: &str)
     }
 }
 
+const HOWS: [&str; 3] = ["f", "l", "s"];
+const FORMS: [&str; 4] = ["b", "o", "c", "C"];
+
+fn fnv(a: &str, b: &str) -> usize {
+    let mut h: u64 = 0xcbf29ce484222325;
+    for x in a.bytes().chain([0xffu8]).chain(b.bytes()) {
+        h ^= x as u64;
+        h = h.wrapping_mul(0x100000001b3);
+    }
+    (h >> 7) as usize
+}
+
+/// C16 in every property's correspondence: the requested (instance kind, argument form) and one OTHER combination,
+/// chosen by a hash of the arguments, must give the same content; with how = "*" ALL twelve combinations are compared.
+/// A difference is reported as the value `FORMS-DIFFER[...]` (which no model output equals).
+pub fn profile_op(prof: &str, op: &str, how: &str, form: &str, a: &str, b: &str) -> String {
+    if how == "*" {
+        let first = profile_op_one(prof, op, "f", "b", a, b);
+        for h in HOWS.iter() {
+            for f in FORMS.iter() {
+                let r = profile_op_one(prof, op, h, f, a, b);
+                if r != first {
+                    return format!("FORMS-DIFFER[f/b={} ; {}/{}={}]", first, h, f, r);
+                }
+            }
+        }
+        return first;
+    }
+    let r = profile_op_one(prof, op, how, form, a, b);
+    let k = fnv(a, b);
+    let (h2, f2) = (HOWS[k % 3], FORMS[(k / 3) % 4]);
+    if h2 != how || f2 != form {
+        let r2 = profile_op_one(prof, op, h2, f2, a, b);
+        if r2 != r {
+            return format!("FORMS-DIFFER[{}/{}={} ; {}/{}={}]", how, form, r, h2, f2, r2);
+        }
+    }
+    r
+}
+
 fn rules_op(prof: &str, rule: &str, s: &str) -> String {
+    // every rule is evaluated on a borrowed and on an owned argument (the Cow variant an earlier rule may hand over)
     macro_rules! go {
         ($p:expr) => {{
             let p = $p;
-            match rule {
-                "width" => fmt_cow(p.width_mapping_rule(s)),
-                "addmap" => fmt_cow(p.additional_mapping_rule(s)),
-                "case" => fmt_cow(p.case_mapping_rule(s)),
-                "norm" => fmt_cow(p.normalization_rule(s)),
-                "dir" => fmt_cow(p.directionality_rule(s)),
+            let (rb, ro) = match rule {
+                "width" => (
+                    fmt_cow(p.width_mapping_rule(s)),
+                    fmt_cow(p.width_mapping_rule(s.to_string())),
+                ),
+                "addmap" => (
+                    fmt_cow(p.additional_mapping_rule(s)),
+                    fmt_cow(p.additional_mapping_rule(s.to_string())),
+                ),
+                "case" => (
+                    fmt_cow(p.case_mapping_rule(s)),
+                    fmt_cow(p.case_mapping_rule(s.to_string())),
+                ),
+                "norm" => (
+                    fmt_cow(p.normalization_rule(s)),
+                    fmt_cow(p.normalization_rule(s.to_string())),
+                ),
+                "dir" => (
+                    fmt_cow(p.directionality_rule(s)),
+                    fmt_cow(p.directionality_rule(s.to_string())),
+                ),
                 _ => proto("bad rule"),
+            };
+            if rb != ro {
+                format!("FORMS-DIFFER[borrowed={} ; owned={}]", rb, ro)
+            } else {
+                rb
             }
         }};
     }
